@@ -171,7 +171,17 @@ def run(ctx):
             arms = {v: t for v, t in code_sw[0].targets}
             clr = [(blk, st) for blk, i, st in rc.assigns() if proj_fields(st["lhs"])[-1:] == ["data_available"] and st["rv"]["k"] == "use" and const_int(st["rv"]["op"]) == 0]
             sets = [(blk, st) for blk, i, st in rc.assigns() if proj_fields(st["lhs"])[-1:] == ["data_available"] and st["rv"]["k"] == "use" and const_int(st["rv"]["op"]) == 1]
-            r4.check(bool(clr) and all(rc.dominates(arms[90], blk) for blk, st in clr), "only-Z-clears", "data_available is cleared only in the ReadyForQuery ('Z') arm", "data_available is cleared outside the 'Z' arm: the reply would be cut at that message")
+            # ReadyForQuery ends a reply; CopyInResponse ('G') also ends what the server has to say for now - it waits for the client
+            enders = [arms[c_] for c_ in (90, 71) if c_ in arms]
+            r4.check(bool(clr) and all(any(rc.dominates(a_, blk) for a_ in enders) for blk, st in clr), "only-Z-clears", "data_available is cleared only in the ReadyForQuery ('Z') and CopyInResponse ('G') arms", "data_available is cleared outside the 'Z' / 'G' arms: the reply would be cut at that message")
+            if 71 in arms:
+                garm = {b_ for b_ in range(rc.nblocks) if rc.dominates(arms[71], b_)}
+                succ_g = rc.succ("n")
+                exits_g = sorted({v for u in garm for v in succ_g[u] if v not in garm})
+                wg = rc.uncrossed_path([arms[71]], exits_g, blocks=[blk for blk, st in clr])
+                r4.check(wg is None, "G-clears", "CopyInResponse clears data_available (the server waits for the client now)",
+                         "the CopyInResponse arm leaves data_available as an earlier message of the same reply set it: after `SELECT 1; COPY t FROM STDIN` the receive loop asks the server for more while the server waits for the client's "
+                         "CopyData, which nobody reads - both sides hang (with statement_timeout the server is banned)", "", wg and rc.describe_path(wg))
             for code, nm in ((68, "DataRow"), (72, "CopyOutResponse")):
                 okc = code in arms and any(rc.dominates(arms[code], blk) for blk, st in sets)
                 r4.check(okc, "sets:%s" % nm, "%s sets data_available before the chunk is handed out" % nm, "%s no longer sets data_available (a reply flushed at the 8 KiB threshold would end the forward loop)" % nm)
